@@ -256,6 +256,13 @@ def generate(seed, tier):
     ops = sc['ops']
     t_probe = round(r.uniform(1.0, 3.0), 3)
     t_honest = round(r.choice([0.95, t_probe + 0.5, t_probe + 0.002]), 3)
+    if r.random() < 0.35:
+        # part of the load is the responder's own doing: its kernel asks for SAs with peers that do not answer, so the table holds half-open
+        # IKE_SAs it initiated itself (they stay until the retransmission budget is used up, about 21 s)
+        for addr in (q_addr, r_addr)[:r.randint(1, 2)]:
+            ops.append({'t': round(t_probe - r.uniform(0.2, 0.8), 3), 'op': 'packet', 'node': 'B',
+                        'flow': {'family': 2, 'saddr': sc['meta']['b_addr'], 'daddr': addr, 'proto': 6, 'sport': 40000, 'dport': 7}})
+        sc['meta']['own_half_open'] = True
     ops.append({'t': t_probe, 'op': 'call', 'name': 'cookie_probe', 'seed': r.randrange(2 ** 31)})
     ops.append({'t': t_honest, 'op': 'packet', 'node': 'A', 'flow': flow})
     ops.append({'t': round(t_honest + 6.0, 3), 'op': 'call', 'name': 'honest_check'})
